@@ -267,6 +267,10 @@ var rules = []*rule{
 		if !f.has["binop"] || !f.goOK {
 			return false
 		}
+		if f.has["benign-typed-site"] && !f.has["typed-leaf"] {
+			// every intermediate value is exact in the declared type: the push cannot show
+			return false
+		}
 		if f.kind == "spec" && f.has["untyped-binop"] && (f.T != "" || f.has["typed-leaf"]) {
 			return true // const declarations: the type also comes from a typed operand
 		}
